@@ -75,7 +75,19 @@ impl<'a, 'tcx> Ctx<'a, 'tcx> {
         match ty.kind() {
             ty::FnDef(did, args) => {
                 o.push(("fn", J::s(defpath(tcx, *did))));
+                o.push(("fn_dp", J::s(dp(tcx, *did))));
                 o.push(("targs", J::Arr(args.iter().map(|a| J::s(format!("{}", a))).collect())));
+                let env = match self.inst {
+                    Some(_) => ty::TypingEnv::fully_monomorphized(),
+                    None => ty::TypingEnv::post_analysis(tcx, self.owner),
+                };
+                if let Ok(Some(inst)) = ty::Instance::try_resolve(tcx, env, *did, args) {
+                    o.push(("resolved_dp", J::s(dp(tcx, inst.def_id()))));
+                    o.push(("resolved", J::s(defpath(tcx, inst.def_id()))));
+                }
+                if let Some(tr) = tcx.trait_of_assoc(*did) {
+                    o.push(("trait", J::s(defpath(tcx, tr))));
+                }
             }
             _ => {
                 // scalar values
@@ -263,6 +275,8 @@ impl<'a, 'tcx> Ctx<'a, 'tcx> {
         match fty.kind() {
             ty::FnDef(did, args) => {
                 o.push(("callee", J::s(defpath(tcx, *did))));
+                o.push(("callee_dp", J::s(dp(tcx, *did))));
+                o.push(("callee_name", J::s(tcx.item_name(*did).to_string())));
                 o.push(("callee_full", J::s(tcx.def_path_str_with_args(*did, args))));
                 o.push(("targs", J::Arr(args.iter().map(|a| J::s(format!("{}", a))).collect())));
                 if let Some(tr) = tcx.trait_of_assoc(*did) {
